@@ -281,7 +281,7 @@ class ApplyAsyncOnly:
 
 
 STRATEGIES = ["seq", "shuffle_true", "shuffle_int", "adversarial", "apply_async", "thread",
-              "shuffle_thread", "process", "mp_pool", "loky_parallel", "loky_workers"]
+              "shuffle_thread", "process", "mp_pool", "loky_parallel", "loky_workers", "loky_parallel_int"]
 CHEAP = STRATEGIES[:7]
 
 
@@ -320,6 +320,8 @@ def strategy_opts(name, rng, n):
         opts["num_workers"] = 2
     if name == "loky_workers":
         opts["num_workers"] = 2
+    if name == "loky_parallel_int":
+        opts["parallel"] = 2               # "parallel : bool or int": the number of workers
     return opts, perm, cleanup
 
 
